@@ -1,12 +1,12 @@
-\* C06 thorough (liveness): 3 nodes.
+\* C06 thorough (liveness): 3 nodes, 1 id, 2 CAS, 1 fault (partition, restart or duplicate delivery), blocking watcher on node 1.
 CONSTANTS
   N = 3
   NI = 1
-  MaxClock = 1
-  Retention = 1
+  MaxClock = 0
+  Retention = 0
   T = 1
   MaxCas = 2
-  MaxFaults = 2
+  MaxFaults = 1
   LiveStates = {"ACTIVE"}
   WatchNodes = {1, 2, 3}
   HoldNodes = {1}
